@@ -330,14 +330,15 @@ fn programs() -> Vec<Program> {
     v
 }
 
-fn run_one(p: &Program, checkpoint: Option<std::path::PathBuf>) -> (usize, Option<String>) {
+fn run_one(p: &Program, checkpoint: Option<std::path::PathBuf>, store: bool) -> (usize, Option<String>) {
     EXECUTIONS.store(0, StdOrd::SeqCst);
     let mut b = loom::model::Builder::new();
     b.preemption_bound = p.bound;
     b.max_branches = 100_000;
     if let Some(cp) = checkpoint {
         b.checkpoint_file = Some(cp);
-        b.checkpoint_interval = 1;
+        // exploring: record the path before every execution; replaying: only load it
+        b.checkpoint_interval = if store { 1 } else { usize::MAX };
     }
     let body: &(dyn Fn() + Send + Sync) = &*p.body;
     // SAFETY: `check` does not return before every execution has finished; the reference outlives it
@@ -378,7 +379,7 @@ fn main() {
             let name = args.get(1).expect("program");
             let cp = args.get(2).expect("checkpoint file");
             let p = progs.iter().find(|p| &p.name == name).expect("unknown program");
-            let (n, r) = run_one(p, Some(cp.into()));
+            let (n, r) = run_one(p, Some(cp.into()), false);
             match r {
                 None => println!("OK program={} executions={}", p.name, n),
                 Some(m) => println!("FAIL program={} executions={} msg={}", p.name, n, m),
@@ -388,7 +389,7 @@ fn main() {
             let name = args.get(1).expect("program");
             let p = progs.iter().find(|p| &p.name == name).expect("unknown program");
             let cp = args.get(2).map(std::path::PathBuf::from);
-            let (n, r) = run_one(p, cp.clone());
+            let (n, r) = run_one(p, cp.clone(), true);
             match r {
                 None => println!("OK program={} executions={}", p.name, n),
                 Some(m) => println!("FAIL program={} executions={} msg={} checkpoint={}", p.name, n, m, cp.map(|c| c.display().to_string()).unwrap_or_default()),
